@@ -155,6 +155,28 @@ impl Node {
         }
     }
 
+    /// A write through `db_ops::set_key_value`, where the `Response::Set` that names the
+    /// stored value is still visible (process_request turns it into a bare ok).
+    pub fn direct_set(&mut self, db: &str, key: &str, value: &str, version: i32) -> J {
+        nundb::verif::set_data_dir(Some(self.dir.clone()));
+        let dbs = self.dbs.clone();
+        let r = catch_unwind(AssertUnwindSafe(|| {
+            let map = dbs.map.read().unwrap();
+            match map.get(db) {
+                Some(d) => nundb::db_ops::set_key_value(key.to_string(), value.to_string(), version, d, &dbs),
+                None => Response::Error { msg: "no db".to_string() },
+            }
+        }));
+        match r {
+            Ok(Response::Ok {}) => json!({"cls":"ok"}),
+            Ok(Response::Set { key, value }) => json!({"cls":"ok","set_key":key,"set_val":value}),
+            Ok(Response::Value { key, value, version }) => json!({"cls":"value","key":key,"val":value,"ver":version}),
+            Ok(Response::Error { msg }) => json!({"cls":"error","msg":msg}),
+            Ok(Response::VersionError { msg, .. }) => json!({"cls":"verr","msg":msg}),
+            Err(e) => json!({"cls":"panic","msg":panic_msg(e)}),
+        }
+    }
+
     /// What the transports do when a connection ends.
     pub fn close(&mut self, c: &str) -> J {
         nundb::verif::set_data_dir(Some(self.dir.clone()));
